@@ -48,6 +48,7 @@ type caseSpec struct {
 type kindDef struct {
 	typ      reflect.Type
 	emb      bool
+	isolate  bool               // recursive type: C16 runs every call on it in a child process under a watchdog
 	tagsOnly bool               // C16: only the tag-keyed routes are in the Inverse domain (the tag of one member names another member)
 	val      func(v string) any // nil result means the zero value of typ
 }
@@ -116,6 +117,36 @@ var kinds = map[string]kindDef{
 	"E4": {typ: reflect.TypeOf(enctypes.E4{}), emb: true, val: func(v string) any {
 		return pick(v, enctypes.E4{}, enctypes.E4{Ha: 11, Hb: "h", E3: enctypes.E3{Ga: 5, Gb: 6, Gc: true, Gd: 2.5, Ge: 9}, Hz: true},
 			enctypes.E4{Ha: 11, E3: enctypes.E3{Gb: 6, Gd: 2.5}})
+	}},
+	// recursive types (member, element, top-level target); z = nil / zero, e = depth 1, n = depth 3
+	"Tree": {typ: reflect.TypeOf(enctypes.Tree(nil)), isolate: true, val: func(v string) any {
+		return pick(v, enctypes.Tree(nil), enctypes.Tree{"a": {"b": {"c": {}}, "d": nil}, "e": {}}, enctypes.Tree{"a": {}})
+	}},
+	"List": {typ: reflect.TypeOf(enctypes.List(nil)), isolate: true, val: func(v string) any {
+		return pick(v, enctypes.List(nil), enctypes.List{{{{}}}, {}, {{}, {}}}, enctypes.List{{}})
+	}},
+	"Node": {typ: reflect.TypeOf(enctypes.Node{}), isolate: true, val: func(v string) any {
+		return pick(v, enctypes.Node{}, nodeN(), enctypes.Node{V: 1, Next: &enctypes.Node{V: 2}})
+	}},
+	"*Node": {typ: reflect.TypeOf((*enctypes.Node)(nil)), isolate: true, val: func(v string) any {
+		n := nodeN()
+		return pick(v, (*enctypes.Node)(nil), &n, &enctypes.Node{V: 1})
+	}},
+	"[]Node": {typ: reflect.TypeOf([]enctypes.Node(nil)), isolate: true, val: func(v string) any {
+		return pick(v, []enctypes.Node(nil), []enctypes.Node{nodeN(), {}}, []enctypes.Node{{V: 1}})
+	}},
+	"map[string]Tree": {typ: reflect.TypeOf(map[string]enctypes.Tree(nil)), isolate: true, val: func(v string) any {
+		return pick(v, map[string]enctypes.Tree(nil), map[string]enctypes.Tree{"t": {"a": {"b": {}}}, "u": {}}, map[string]enctypes.Tree{"t": {}})
+	}},
+	"P": {typ: reflect.TypeOf(enctypes.P(nil)), isolate: true, val: func(v string) any {
+		var p0 enctypes.P
+		p1 := enctypes.P(&p0)
+		p2 := enctypes.P(&p1)
+		return pick(v, enctypes.P(nil), p2, p1)
+	}},
+	"Ma": {typ: reflect.TypeOf(enctypes.Ma{}), isolate: true, val: func(v string) any {
+		return pick(v, enctypes.Ma{}, enctypes.Ma{N: 1, B: &enctypes.Mb{S: "b", A: &enctypes.Ma{N: 2, B: &enctypes.Mb{S: "c"}}, As: []enctypes.Ma{{N: 3}, {N: 4, B: &enctypes.Mb{}}}}},
+			enctypes.Ma{N: 1, B: &enctypes.Mb{S: "b"}})
 	}},
 	// full-precision numerics in by-value positions (member, slice element, map element) and behind a pointer
 	"N":  {typ: reflect.TypeOf(enctypes.N1{}), val: func(v string) any { return pick(v, enctypes.N1{}, n1(), enctypes.N1{Nf: -1e-300, Ni: -16777217}) }},
@@ -311,6 +342,12 @@ func slicePM(v string) any {
 		a = append(a, &x)
 	}
 	return a
+}
+
+func nodeN() enctypes.Node {
+	return enctypes.Node{V: 1, Next: &enctypes.Node{V: 2, Next: &enctypes.Node{V: 3, Kids: []enctypes.Node{{V: 4}}}},
+		Kids: []enctypes.Node{{V: 5, M: map[string]*enctypes.Node{"k": {V: 6}}}, {}},
+		M:    map[string]*enctypes.Node{"a": {V: 7, Kids: []enctypes.Node{{V: 8}}}, "b": {V: 9}}}
 }
 
 func n1() enctypes.N1 {
